@@ -202,10 +202,14 @@ theorem optWf_set (k : Kind) (o : Opt) (h : optWf k o = true) (hn : o.name = "se
     o.arg 0 ∈ settableSlots k := by
   obtain ⟨nm, v⟩ := o
   cases hn
-  have : optWf k ⟨"set", v⟩ = (settableSlots k).contains (Opt.arg ⟨"set", v⟩ 0) := by
-    cases k <;> rfl
-  rw [this] at h
-  simpa using h
+  have : (settableSlots k).contains (Opt.arg ⟨"set", v⟩ 0) = true := by
+    cases k
+    case proc =>     -- the PPTT direct writes additionally bound the value (`u32`)
+      have h' : ((settableSlots .proc).contains (Opt.arg ⟨"set", v⟩ 0) &&
+          decide (Opt.arg ⟨"set", v⟩ 1 < 2 ^ 32)) = true := h
+      exact (Bool.and_eq_true _ _ ▸ h').1
+    all_goals exact h
+  simpa using this
 
 /-- slots outside `settableSlots` keep their default under well-formed programs -/
 theorem lastSet_unsettable (k : Kind) (opts : List Opt) (hwf : opts.all (optWf k) = true) (j d : Nat)
